@@ -172,3 +172,43 @@ func init() {
 			{Name: "damaged", Run: "^TestDamagedPrograms$", Checks: [2]int{2500, 40000}, Shards: [2]int{6, 16}},
 		}})
 }
+
+func init() {
+	reg(PropCfg{ID: "C05", Pkg: "c05", Level: "exploration",
+		Rule: "validity predicate 'the call returns': every input is lexed to EOF/first error and parsed in-process (recover + watchdog, a hang is re-run before it counts) and analysed in the sandbox worker as entry module (main required / not required) and, for a drawn subset of 10 module variants, as the text a host returns for an imported module (named/plain/kind imports, module importing the entry, importing itself, 2-cycles between non-entry modules, host error, module not found, import chains and diamonds); inputs: arbitrary and hostile byte strings up to 64 KiB, token soup over the whole token alphabet, untyped grammar-shaped programs, 1-3 token mutants of generated/shipped programs, EVERY prefix of programs <= 2 KiB (token ends + every 5th rune beyond), every single-token delete/duplicate/swap/replace, 30+ nesting generators at depth 1..1000 and 64 KiB single lexemes; no panic, no fatal error, no hang; problems only in returned errors/diagnostics; non-trivial = >= 5 tokens before the first hard error; distinct by text + variant",
+		Jobs: []Job{
+			{Name: "probes", Run: "^TestProbes$", Shards: [2]int{2, 4}},
+			{Name: "depth", Run: "^TestDepth$", Shards: [2]int{4, 8}},
+			{Name: "prefixes", Run: "^TestPrefixes$", Shards: [2]int{4, 16}},
+			{Name: "edits", Run: "^TestTokenEdits$", Shards: [2]int{4, 16}},
+			{Name: "bytes", Run: "^TestRandomBytes$", Checks: [2]int{400, 12000}, Shards: [2]int{4, 16}},
+			{Name: "soup", Run: "^TestTokenSoup$", Checks: [2]int{400, 12000}, Shards: [2]int{4, 16}},
+			{Name: "fuzzparse", Fuzz: "FuzzParse", FuzzSec: 420},
+			{Name: "fuzzanalyze", Fuzz: "FuzzAnalyze", FuzzSec: 420},
+		}})
+}
+
+func init() {
+	reg(PropCfg{ID: "C19", Pkg: "c19", Level: "translation_validation",
+		Rule: "round trip / differential: for every accepted program P (generated by the typed model grammar with unicode strings; a table of every printer-sensitive form - string escapes, floats, match default positions, object keys, any-object literals, singletons, impl blocks, annotations, pub/event, imports, function types, nested infix trees - and every optimizer position of a diverging statement; generated string and float literals; random infix trees built directly as analysed ASTs; the shipped examples and test scripts) the parser AST print P1 and the analysed AST print P2 must parse, be accepted, write the same output with the same outcome on VM and interpreter, and print to themselves (fixed point after one round); compile(Optimize(Analyze(P))) must behave like compile(Analyze(P)); non-trivial = every accepted program; distinct by program text + kind",
+		Jobs: []Job{
+			{Name: "forms", Run: "^TestTableForms$", Shards: [2]int{4, 8}},
+			{Name: "shipped", Run: "^TestTableShipped$", Shards: [2]int{4, 8}},
+			{Name: "parsed", Run: "^TestParsedRoundTrip$", Checks: [2]int{250, 5000}, Shards: [2]int{4, 16}},
+			{Name: "analyzed", Run: "^TestAnalyzedRoundTrip$", Checks: [2]int{250, 5000}, Shards: [2]int{4, 16}},
+			{Name: "optimizer", Run: "^TestOptimizer$", Checks: [2]int{250, 5000}, Shards: [2]int{4, 16}},
+			{Name: "strings", Run: "^TestStringLiterals$", Checks: [2]int{200, 4000}, Shards: [2]int{2, 8}},
+			{Name: "floats", Run: "^TestFloatLiterals$", Checks: [2]int{200, 4000}, Shards: [2]int{2, 8}},
+			{Name: "mixed", Run: "^TestMixedForms$", Checks: [2]int{200, 4000}, Shards: [2]int{2, 8}},
+			{Name: "trees", Run: "^TestTreeShape$", Checks: [2]int{300, 6000}, Shards: [2]int{2, 8}},
+		}})
+}
+
+func init() {
+	reg(PropCfg{ID: "C20", Pkg: "c20", Level: "translation_validation",
+		Rule: "metamorphic: (program, seed, passes) with programs from the property's class (generated with pure operands, small non-negative multiplication operands and small numeric literals; the shipped examples the analyzer accepts) x seeds over int64 incl. 0, +-1, extremes x passes 1-4: every variant the transformer returns must print to a text the analyzer accepts and must write the same output with the same outcome on the VM as the original; a transformer panic is a failure; non-trivial = variant text differs from the original; distinct by program + seed + passes",
+		Jobs: []Job{
+			{Name: "examples", Run: "^TestTableExamples$", Shards: [2]int{6, 8}},
+			{Name: "generated", Run: "^TestGenerated$", Checks: [2]int{200, 4000}, Shards: [2]int{6, 16}},
+		}})
+}
